@@ -7,7 +7,8 @@ C07 line protocol.  One line = one whole navigation history:
   every URL is ten comma-separated fields
     scheme,hasAuthority,user,password,host,v6,port,path,query,fragment
   (an eleventh field `A` on a reference: the object was parsed without its query / fragment, which were then set
-  through the public API, so no query component was ever parsed)
+  through the public API, so no query component was ever parsed); a reference token `_` (only `_` may follow it):
+  a step outside the statement (reference with a scheme but without a host) or after such a step - answered `_`
   texts as hex UTF-8 (`-` = empty, `N` = undefined for scheme / query / fragment), flags 0/1, port decimal (0 = none).
 Output: `<base> <after ref 1> ... N <normalize()> <normalize() twice> <normalize(with_case=False)>`
 (the three normalisations are applied to a fresh copy of the base), where a URL with a host is shown as
@@ -100,13 +101,17 @@ def handle (line : String) : String :=
       else comps ++ " -"
     | none => "bad-op"
   | "nav" :: b :: refs =>
-    match parseURL? b, parseAll? refs with
-    | some base, some dests =>
+    -- `_` = a step outside the statement (a reference with a scheme but without a host) or a step after one:
+    -- not modelled, shown as `_` (the harness shows the implementation's answer as `_` too)
+    let inside := refs.takeWhile (fun t => t != "_")
+    let outside := refs.dropWhile (fun t => t != "_")
+    match parseURL? b, parseAll? inside, outside.all (fun t => t == "_") with
+    | some base, some dests, true =>
       let n1 := base.normalize
       let n2 := n1.normalize
       let n3 := base.normalize false
-      " ".intercalate ([showU base] ++ (trail base dests).map showU ++ ["N", showU n1, showU n2, showU n3])
-    | _, _ => "bad-op"
+      " ".intercalate ([showU base] ++ (trail base dests).map showU ++ outside ++ ["N", showU n1, showU n2, showU n3])
+    | _, _, _ => "bad-op"
   | _ => "bad-op"
 
 end C07.Driver
